@@ -235,12 +235,41 @@ def natlist(l):
     return "[" + "; ".join(str(int(x)) for x in l) + "]%nat"
 
 
+def ensure_built(imports, timeout=900):
+    """Bring the .vo files of the modules a case file imports up to date (they may lie outside the dependency
+    closure of the property file that build() made).  Failures are left to the case compilation to report."""
+    targets = []
+    for name in imports.split():
+        for sub in ("Model", "Gen", "Bridge", "Proofs"):
+            if os.path.exists(os.path.join(COQ, sub, name + ".v")):
+                targets.append(f"{sub}/{name}.vo")
+                break
+    if not targets or not os.path.exists(os.path.join(COQ, "Makefile")):
+        return
+    def mk():
+        try:
+            subprocess.run(["make", "-k", "-j8"] + targets, cwd=COQ, stdout=subprocess.DEVNULL,
+                           stderr=subprocess.DEVNULL, timeout=timeout)
+        except Exception:  # noqa
+            pass
+    if _HELD is not None:          # this process already holds the build lock (between regen and build)
+        mk()
+        return
+    with open(LOCK, "w") as lk:
+        fcntl.flock(lk, fcntl.LOCK_EX)
+        try:
+            mk()
+        finally:
+            fcntl.flock(lk, fcntl.LOCK_UN)
+
+
 def run_cases(imports, pairs, chunk=400, jobs=8, preamble="", timeout=900):
     """pairs: list of (model_expr_of_type_val : str, observed canonical python value).
     Evaluates `val_eqb model observed` for every pair inside Coq (vm_compute) and returns
     (bad_indices, info).  Raises RuntimeError if Coq itself fails."""
     if not pairs:
         return [], {"files": 0}
+    ensure_built(imports)
     d = tempfile.mkdtemp(prefix="xvrun-", dir=os.path.join(COQ, "Run"))
     try:
         names = []
@@ -279,6 +308,7 @@ def run_cases(imports, pairs, chunk=400, jobs=8, preamble="", timeout=900):
 
 def eval_model(imports, exprs, preamble="", timeout=600):
     """Evaluate arbitrary Gallina expressions; returns the raw printed results (strings)."""
+    ensure_built(imports)
     d = tempfile.mkdtemp(prefix="xveval-", dir=os.path.join(COQ, "Run"))
     try:
         with open(os.path.join(d, "ev.v"), "w") as f:
